@@ -43,7 +43,8 @@ RULE = ("streams of X slices for 1-3 ranks: (i) exhaustive grid = wrap position 
         "gap TSk..TSk+1, before TS1, after TS5, absent) x phase type of the middle slice (DmaI/Prep/Exec/DmaO/other) x "
         "counter-gap pattern x start epoch x input order; (ii) random structured multi-rank/multi-job streams with "
         "0-3 wraps, random host epochs, freq in {256,512,1024,2048}, optional shuffling, hex counters, attr/args form; "
-        "(iii) malformed/non-hypothesis streams (decreasing counters, >= 1 period slices, host jitter, zero-length "
+        "(iv) end-to-end: exported JSON of the real Acelyzer API on 1-3 rank chain-allreduce scenarios with a wrap inside, "
+        "oracle only; (iii) malformed/non-hypothesis streams (decreasing counters, >= 1 period slices, host jitter, zero-length "
         "Exec, equal-ts Exec (no longer a crash since /repo 9ff54c0), negative ts, non-X events, --ignore_crit). A case is non-trivial when a 2^32 boundary "
         "lies inside the counter span of at least one rank (some slice needs a non-zero correction relative to "
         "another) or an error/drop branch fires; distinct = distinct canonical case")
@@ -454,6 +455,50 @@ def gen_cases(ctx: Ctx):
 
 
 # ---------------------------------------------------------------------------------------------
+# end-to-end stream (oracle only): the exported JSON of the real Acelyzer API on multi-rank scenarios
+# ---------------------------------------------------------------------------------------------
+
+def e2e_case(ctx: Ctx):
+    rng = ctx.rng
+    R = rng.choice([1, 2, 3])
+    f = 512
+    # a 2^32 boundary at a random device time inside the scenario (it spans roughly 100..1500 us)
+    epochs = [rng.randint(1, 3) * M32 - int(rng.randint(90, 1200) * f) + rng.choice([0, 0, 1, -1, 256]) for _ in range(R)]
+    return {"tag": "e2e", "R": R, "groups": rng.choice([1, 2, 2]), "freq": f, "gen_seed": rng.randrange(1000),
+            "dev_epochs": epochs, "host_epochs": [float(rng.randrange(1 << 28, 1 << 31)) for _ in range(R)]}
+
+
+def run_e2e(case):
+    from gen import scenario
+    files = scenario.scenario_events(R=case["R"], groups=case["groups"], freq=float(case["freq"]), seed=case["gen_seed"],
+                                     dev_epochs=case["dev_epochs"], host_epochs=case["host_epochs"])
+    with contextlib.redirect_stdout(io.StringIO()):
+        return stage.e2e([f"--freq={case['freq']}:1100", "--keep_prep"], files)
+
+
+def oracle_e2e(case, r):
+    if r["error"] or r["rc"] != 0 or r["events"] is None:
+        return ("wrap-crash", f"acelyzer failed on a generated scenario: rc={r['rc']} {r['error']}")
+    by = {}
+    for e in r["events"]:
+        a = e.get("args", {})
+        if e.get("ph") == "X" and "TS1" in a and "true_TS" in a:
+            by.setdefault(e["pid"], []).append((a["uid"], [int(a[f"TS{i}"]) for i in range(1, 6)], a["true_TS"]))
+    if len(by) != case["R"]:
+        return ("wrap-lost", f"device slices of {case['R'] - len(by)} rank(s) missing in the exported trace")
+    for pid, evs in sorted(by.items()):
+        ks = set()
+        for uid, t, tr in evs:
+            if any(t[i] > t[i + 1] for i in range(4)):
+                return ("wrap-monotone", f"exported slice {uid}: counters decrease: {t}")
+            ks |= {Fraction(t[i] - tr[i], M32) for i in range(5)}
+        if len(ks) != 1 or next(iter(ks)).denominator != 1:
+            return ("wrap-inconsistent", f"exported trace, pid {pid}: exported - true counters is not one multiple of 2^32: "
+                                         f"{sorted(str(k) for k in ks)}")
+    return None
+
+
+# ---------------------------------------------------------------------------------------------
 # model side
 # ---------------------------------------------------------------------------------------------
 
@@ -505,6 +550,14 @@ def classify(case, real):
 
 
 def oracle_on_case(ctx: Ctx, case, verbose=False):
+    if case.get("tag") == "e2e":
+        r = run_e2e(case)
+        v = oracle_e2e(case, r)
+        if verbose:
+            print("rc:", r["rc"], r["error"], "exported events:", len(r["events"] or []))
+        if v:
+            ctx.violation(v[0], v[1], case)
+        return None
     real = run_real(case)
     v = oracle(case, real)
     if verbose:
@@ -527,6 +580,11 @@ def run(ctx: Ctx):
         ctx.case_done(case, nontrivial=nt)
         cases.append(case)
         reals.append(real)
+    for _ in range(ctx.n(40, 400)):
+        case = e2e_case(ctx)
+        oracle_on_case(ctx, case)
+        ctx.count("stream:e2e")
+        ctx.case_done(case, nontrivial=True)
     ctx.extra["exhaustive"] = False
     for pb in sorted(set(_SHAPE_PROBLEMS)):
         if not any(b["what"].endswith(pb) for b in ctx.broken):
@@ -546,6 +604,8 @@ def run(ctx: Ctx):
 
 
 def shrink(ctx: Ctx, case, classifier):
+    if case.get("tag") == "e2e":
+        return case
     case = copy.deepcopy(case)
 
     def bad(c):
